@@ -180,7 +180,7 @@ MENU_SMALL = {
     "cap": ["C2"],
     # the four Hpin..4 profiles pin either end of the first/last link on either agent: pyDCOP reads a link's ends
     # from a frozenset, so which (computation, agent) orientation a shortcut sees depends on PYTHONHASHSEED
-    "host": ["H4first", "Hpinff4", "Hpinfl4", "Hpinlf4", "Hpinll4", "Hzero"],
+    "host": ["H4first", "Halt", "Hpinff4", "Hpinfl4", "Hpinlf4", "Hpinll4", "Hzero"],
     "route": ["R5first"],
     "load": ["L3last"],
 }
@@ -362,18 +362,47 @@ def features(inst):
     }
 
 
-def pair_once_cost(inst, comps, where):
-    """Diagnostic only (never decides a verdict): oilp_cgdp's cost model with every pair of linked computations
-    counted once (load summed over their common links), instead of once per common link."""
+def suspect_cost(inst, comps, where, once, flips):
+    """Diagnostic only -- names the root cause in the violation key, never decides a verdict.  oilp_cgdp's documented
+    cost (0.8 * sum route*load + 0.2 * sum hosting) with two possible deviations of an objective function:
+    once : a pair of computations held by m links weighs m*load (counted once, load summed over the common links)
+           instead of distribution_cost's m*m*load (counted once per link, each time with the summed load);
+    flips: per linked pair an orientation (c1, c2); the term 'c1 on a later agent than c2' is dropped when c1 or
+           c2 is pinned there by a zero hosting cost.  None = nothing dropped."""
     _, links = computations(inst["method"], inst["shape"])
     agents = inst["agents"]
     comm = 0
-    for (c1, c2), m in link_pairs(links).items():
-        a1, a2 = agents[where[c1]], agents[where[c2]]
-        if a1 is not a2:
-            comm += a1["routes"].get(a2["name"], a1["default_route"]) * m * inst["load"][c1 + "|" + c2]
+    for k, (pair, m) in enumerate(sorted(link_pairs(links).items())):
+        c1, c2 = pair[::-1] if flips and flips[k] else pair
+        j1, j2 = where[c1], where[c2]
+        if j1 == j2:
+            continue
+        if flips is not None and j1 > j2 and 0 in (hosting_cost(agents[j1], c1), hosting_cost(agents[j2], c2)):
+            continue
+        route = agents[j1]["routes"].get(agents[j2]["name"], agents[j1]["default_route"])
+        comm += route * (m if once else m * m) * inst["load"]["|".join(pair)]
     host = sum(hosting_cost(agents[where[c]], c) for c in comps)
     return 0.8 * comm + 0.2 * host
+
+
+def diagnose(inst, comps, where, feasible):
+    """Which suspected deviation of the objective makes the returned mapping optimal (smallest explanation first)."""
+    feat = features(inst)
+    _, links = computations(inst["method"], inst["shape"])
+    n_pairs = len(link_pairs(links))
+
+    def optimal(once, flips):
+        best = min(suspect_cost(inst, comps, w, once, flips) for _, w in feasible)
+        return abs(suspect_cost(inst, comps, where, once, flips) - best) <= TOL
+
+    orientations = list(itertools.product((0, 1), repeat=n_pairs)) if feat["pinned_neighbour"] else []
+    if feat["parallel"] and optimal(True, None):
+        return "pair-of-computations-in-several-links"
+    if any(optimal(False, o) for o in orientations):
+        return "term-of-zero-cost-pinned-computation-missing"
+    if feat["parallel"] and any(optimal(True, o) for o in orientations):
+        return "pinned-term-missing+pair-in-several-links"
+    return "plain"
 
 
 def evaluate(inst):
@@ -454,13 +483,7 @@ def evaluate(inst):
                       f"returned {show(where, names)} which breaks the hard rule '{rule}'; expected {exp}"))
         return obs, flaws
     if abs(got - best) > TOL:
-        cause = "plain"
-        if method == "oilp_cgdp" and feat["parallel"]:
-            alt = min(pair_once_cost(inst, comps, w) for _, w in feasible)
-            if abs(pair_once_cost(inst, comps, where) - alt) <= TOL:
-                cause = "pair-of-computations-in-several-links"
-        if cause == "plain" and feat["pinned_neighbour"]:
-            cause = "neighbour-of-zero-cost-pinned-computation"
+        cause = diagnose(inst, comps, where, feasible) if method == "oilp_cgdp" else "plain"
         opt = min(feasible, key=lambda f: f[0])[1]
         flaws.append((f"{method}|non-minimal|{cause}",
                       f"returned {show(where, names)} of distribution_cost {got}, but {show(opt, names)} satisfies the "
